@@ -13,6 +13,8 @@ Theorems about `Model/Inverse.lean` (the model of `setup_inverse`, `solve_invers
                                   fractions, final fraction 1 and the dissolve / precipitate constraints;
 * `adjustment_within_declared`  – the bounds of the matrix are the declared uncertainties (plus `toler` in the negative
                                   direction when the bound exceeds the concentration);
+* `element_entry_reaches_all_rows` – tidy_inverse: a -balances entry naming a redox element reaches every valence-state
+                                  row of that element; `unnamed_row_keeps_default`;
 * `minimal_antichain(_fold)`    – under `-minimal`, for any enumeration order and any LP oracle that is exact
                                   (`OracleOK`), no reported model's set contains another one's;
 * `range_contains_value`        – the optimum of the range LP (minimise |x_v ∓ range_max| over the feasible set of the model)
@@ -103,6 +105,34 @@ theorem range_objective (x : Var → Rat) (v : Var) (R : Rat) :
   simp only [Row.eval, List.map_cons, List.map_nil, sumR]
   congr 1; grind
 
+/-! ## declared uncertainties (tidy_inverse) -/
+
+/-- tidy_inverse: a `-balances` entry that names a redox ELEMENT reaches EVERY valence-state row of that element
+    (unless a later element-wide entry for the same element or an entry for that very row replaces it) -/
+theorem element_entry_reaches_all_rows (rows : List RowId) (dflt : List Rat) (pre post : List BalEntry) (p : Nat)
+    (unc : List Rat) (i : Nat) (hi : i < rows.length) (hp : (rows.getD i default).primary = p)
+    (hpost : ∀ en ∈ post, en.target ≠ .element p)
+    (hrow : ∀ en ∈ pre ++ ⟨.element p, unc⟩ :: post, ∀ m, en.target = .row m → i ≠ rows.findIdx (fun r => r.master = m)) :
+    propagateUnc rows dflt (pre ++ ⟨.element p, unc⟩ :: post) i = unc := by
+  unfold propagateUnc
+  rw [foldl_stepRow_other rows _ _ i hrow]
+  rw [List.foldl_append, List.foldl_cons, foldl_stepElem_other rows post _ i p hp hpost]
+  simp only [stepElem]
+  rw [if_pos ⟨hp, hi⟩]
+
+/-- rows that no entry names keep the global -uncertainty list -/
+theorem unnamed_row_keeps_default (rows : List RowId) (dflt : List Rat) (es : List BalEntry) (i : Nat)
+    (hel : ∀ en ∈ es, en.target ≠ .element (rows.getD i default).primary)
+    (hrow : ∀ en ∈ es, ∀ m, en.target = .row m → i ≠ rows.findIdx (fun r => r.master = m)) :
+    propagateUnc rows dflt es i = dflt := by
+  unfold propagateUnc
+  rw [foldl_stepRow_other rows _ _ i hrow, foldl_stepElem_other rows es _ i _ rfl hel]
+
+/-- non-vacuity: Fe(2), Fe(3) (rows 0, 1 of element 7) and Ca (row 2); "Fe 0.02" reaches both valence states -/
+example : (List.range 3).map (propagateUnc [⟨10, 7⟩, ⟨11, 7⟩, ⟨12, 12⟩] [1/20, 1/20] [⟨.element 7, [1/50, 1/50]⟩, ⟨.row 11, [1/10, 1/10]⟩]) =
+    [[1/50, 1/50], [1/10, 1/10], [1/20, 1/20]] := by decide +kernel
+example : padUnc 3 [1/20, 1/100] [1/2, 1/2, 1/2] = [1/20, 1/100, 1/100] ∧ padUnc 3 [] [1/2, 1/2, 1/2] = [1/2, 1/2, 1/2] := by
+  decide +kernel
 /-! ## non-vacuity -/
 
 /-- one element (Ca, 5 % uncertainty), two solutions (1 mmol → 3 mmol), one dissolve-only phase with one Ca -/
